@@ -4,11 +4,14 @@ package c08
 import (
 	"bytes"
 	"fmt"
+	"io"
 	"os"
 	"regexp"
+	"strconv"
 	"strings"
 	"sync"
 	"testing"
+	"testing/iotest"
 	"time"
 
 	lua "github.com/yuin/gopher-lua"
@@ -105,6 +108,46 @@ func loadOnceUnguarded(src string) (o outcome, perr error) {
 	return outcome{class: "syntax", err: err.Error()}, nil
 }
 
+type chunkReader struct {
+	s string
+	n int
+}
+
+func (c *chunkReader) Read(p []byte) (int, error) {
+	if len(c.s) == 0 {
+		return 0, io.EOF
+	}
+	n := c.n
+	if n > len(c.s) {
+		n = len(c.s)
+	}
+	if n > len(p) {
+		n = len(p)
+	}
+	copy(p, c.s[:n])
+	c.s = c.s[n:]
+	return n, nil
+}
+
+// loadReader loads through LState.Load with the chunk name LoadString uses.
+func loadReader(rd io.Reader) (o outcome, perr error) {
+	loadMu.Lock()
+	defer loadMu.Unlock()
+	defer func() {
+		if r := recover(); r != nil {
+			perr = fmt.Errorf("Load panicked: %v", r)
+		}
+	}()
+	fn, err := sharedState.Load(rd, "<string>")
+	if err == nil {
+		if fn == nil || fn.Proto == nil {
+			return o, fmt.Errorf("Load returned (nil, nil)")
+		}
+		return outcome{ok: true, class: "accepted", dump: gl.DumpProto(fn.Proto, true)}, nil
+	}
+	return outcome{class: "syntax", err: err.Error()}, nil
+}
+
 // parseCompileOnce goes through parse.Parse + lua.Compile directly (the other documented route).
 func parseCompileOnce(src string) (o outcome, perr error) {
 	defer func() {
@@ -148,6 +191,17 @@ var chkLoad = vf.Register("load_total", func(k *vf.C, c *LoadCase) error {
 	}
 	if !o1.ok && strings.TrimSpace(o1.err) == "" {
 		return fmt.Errorf("rejected with an empty error message")
+	}
+	// "never depends on anything but the bytes": the same bytes through readers that deliver them in other portions
+	for name, rd := range map[string]io.Reader{"one byte at a time": iotest.OneByteReader(strings.NewReader(src)), "in halves": iotest.HalfReader(strings.NewReader(src)),
+		"in portions of 7": &chunkReader{s: src, n: 7}, "in portions of 4095": &chunkReader{s: src, n: 4095}} {
+		o4, err := loadReader(rd)
+		if err != nil {
+			return fmt.Errorf("read %s: %v", name, err)
+		}
+		if o4.ok != o1.ok || o4.dump != o1.dump || o4.err != o1.err {
+			return fmt.Errorf("the same bytes read %s load differently: %q vs %q", name, brief(o1), brief(o4))
+		}
 	}
 	classify(k, c, o1)
 	return nil
@@ -809,4 +863,68 @@ func TestLoadGlued(t *testing.T) {
 		}
 		chkGlue.Run(rt, c)
 	})
+}
+
+// ---------------------------------------------------------------------------------------------
+// two-byte line ends at every offset around the scanner's buffer size: a leading comment of every length from
+// 4096-len(program) to 4100 moves each CR LF (and LF CR) pair of a small program across the 4096-byte boundary
+
+type BoundaryCase struct {
+	Pad  int    `json:"comment_length"`
+	Ends string `json:"line_ends"`
+}
+
+const boundaryProgram = "local a = [[p\nq\n\nr]]\nlocal b = 'r\\\ns'\n--[==[ c\nd ]==]\nlocal c = \"x\\\n\\\ny\" -- e\nlocal l = debug and debug.getinfo(1, 'l').currentline or 0\nreturn a .. '|' .. b .. '|' .. c .. '|' .. l\n"
+
+var chkBoundary = vf.Register("line_ends_across_buffer_boundary", func(k *vf.C, c *BoundaryCase) error {
+	src := "--" + strings.Repeat("x", c.Pad) + "\n" + boundaryProgram
+	want := "p\nq\n\nr|r\ns|x\n\ny|13"
+	text := strings.ReplaceAll(src, "\n", c.Ends)
+	for name, load := range map[string]func(L *lua.LState) (*lua.LFunction, error){
+		"LoadString": func(L *lua.LState) (*lua.LFunction, error) { return L.LoadString(text) },
+		"Load, one byte at a time": func(L *lua.LState) (*lua.LFunction, error) {
+			return L.Load(iotest.OneByteReader(strings.NewReader(text)), "<string>")
+		},
+		"Load, portions of 4095": func(L *lua.LState) (*lua.LFunction, error) { return L.Load(&chunkReader{s: text, n: 4095}, "<string>") },
+	} {
+		L := lua.NewState()
+		fn, err := load(L)
+		if err != nil {
+			L.Close()
+			return fmt.Errorf("%s, comment of %d bytes, line ends %q: rejected: %v", name, c.Pad, c.Ends, err)
+		}
+		L.Push(fn)
+		if err := L.PCall(0, 1, nil); err != nil {
+			L.Close()
+			return fmt.Errorf("%s, comment of %d bytes, line ends %q: %v", name, c.Pad, c.Ends, err)
+		}
+		got := L.Get(-1).String()
+		L.Close()
+		if got != want {
+			return fmt.Errorf("%s, comment of %d bytes, line ends %q: the program returns %q, with LF line ends %q", name, c.Pad, c.Ends, got, want)
+		}
+	}
+	k.Class("line_ends:" + strconv.Quote(c.Ends))
+	k.Nontrivial(vf.Hash(fmt.Sprint(*c)))
+	if c.Pad%50 == 0 {
+		k.Sample("boundary", 1, c)
+	}
+	return nil
+})
+
+func TestLoadBufferBoundaries(t *testing.T) {
+	si, sn := vf.Shard()
+	i := 0
+	for _, ends := range []string{"\r\n", "\n\r", "\n", "\r"} {
+		for _, base := range []int{4096, 8192} {
+			for pad := base - len(boundaryProgram) - 12; pad <= base+4; pad++ {
+				i++
+				if i%sn != si {
+					continue
+				}
+				chkBoundary.Run(t, &BoundaryCase{Pad: pad, Ends: ends})
+			}
+		}
+	}
+	chkBoundary.SetExhaustive(true)
 }
